@@ -216,6 +216,10 @@ pub fn replay(j: &serde_json::Value) -> serde_json::Value {
             for (i, n) in sizes.iter().enumerate() {
                 items.push(Ok(Bytes::from(vec![(b'a' + (i as u8)); *n])));
             }
+            if let Some(n) = j["tail_chunk"].as_u64() {
+                // the handler stopped reading before the stream ended: the stream goes on
+                items.push(Ok(Bytes::from(vec![b'z'; n as usize])));
+            }
             if has(&labels, "body stream fails") {
                 items.push(Err(actix_web::error::PayloadError::Incomplete(None)));
             }
